@@ -187,6 +187,9 @@ func partA() {
 	var violating int64
 	for _, st := range all {
 		violating += st.Violating
+		if st.SeedViolated {
+			violating = run.Trans // a seed prefix already violates: the scenarios behind it were not explored
+		}
 	}
 	for k, v := range nvm {
 		if v == 0 {
